@@ -69,21 +69,40 @@ Definition lgroup_step (gby : string) (st : lbuckets * string) (l : leaf) : lbuc
 Definition lgroup_buckets (gby : string) (ls : list leaf) : lbuckets :=
   fst (fold_left (lgroup_step gby) ls ([("", [])], "")).
 
-(** the AceGroups that are created: fresh objects, no note, sequence 0 *)
-Definition regroup (gby : string) (ls : list leaf) : list top :=
-  flat_map (fun kv => match snd kv with [] => [] | _ => [TGrp 0 0 (fst kv) 0 (snd kv)] end)
+(** the AceGroups that are created: a group of the list being re-grouped that has the same name
+    hands over identifier, note and sequence (dict by name: the last one wins); otherwise a fresh
+    object without note, sequence 0 *)
+Fixpoint find_grp (name : string) (old : list top) : option (N * N * N) :=
+  match old with
+  | [] => None
+  | TGrp id n nm s _ :: t =>
+      match find_grp name t with
+      | Some r => Some r
+      | None => if String.eqb nm name then Some (id, n, s) else None
+      end
+  | TLeaf _ :: t => find_grp name t
+  end.
+
+Definition regroup (gby : string) (old : list top) (ls : list leaf) : list top :=
+  flat_map (fun kv => match snd kv with
+                      | [] => []
+                      | _ => match find_grp (fst kv) old with
+                             | Some (id, n, s) => [TGrp id n (fst kv) s (snd kv)]
+                             | None => [TGrp 0 0 (fst kv) 0 (snd kv)]
+                             end
+                      end)
            (lgroup_buckets gby ls).
 
 (** the tail of the Acl.items setter *)
 Definition set_items (gby : string) (tops : list top) : list top :=
-  if str_nonempty gby then regroup gby (flat tops) else tops.
+  if str_nonempty gby then regroup gby tops (flat tops) else tops.
 
 Definition with_tops (a : acl) (tops : list top) : acl :=
   mkAcl (o_cfg a) (o_name a) (o_gby a) (o_id a) (o_note a) tops.
 
 Definition op_group (gby : string) (a : acl) : acl :=
   if str_nonempty gby
-  then mkAcl (o_cfg a) (o_name a) gby (o_id a) (o_note a) (regroup gby (flat (o_tops a)))
+  then mkAcl (o_cfg a) (o_name a) gby (o_id a) (o_note a) (regroup gby (o_tops a) (flat (o_tops a)))
   else a.
 
 Definition op_ungroup (a : acl) : acl :=
